@@ -134,13 +134,20 @@ class CountingTask(asyncio.tasks._PyTask):
     def __init__(self, coro, *, loop=None, name=None, context=None, cancel_at=None, **kw):
         self.steps = 0
         self.cancel_at = cancel_at
+        self.cancelled_at = None           # loop time of the first cancel() request
         super().__init__(coro, loop=loop, name=name, context=context)
+
+    def external_cancel(self):
+        """Cancellation requested by the harness (not the task's own timeouts, which also go through cancel())."""
+        if self.cancelled_at is None and not self.done():
+            self.cancelled_at = self._loop.time()
+        return self.cancel()
 
     def _Task__step(self, exc=None):
         self.steps += 1
         if self.cancel_at is not None and self.steps == self.cancel_at and exc is None and not self.done():
             self.cancel_at = None
-            self.cancel()
+            self.external_cancel()
             # the cancellation is delivered by the step scheduled by cancel() (or by this one if nothing is awaited)
         return super()._Task__step(exc)
 
